@@ -154,24 +154,18 @@ impl Check for C17 {
                     // pen: the next printed cell
                     {
                         let mut fk = replay_plain(&t.config, &prefix);
+                        // a restore clears the wrap-pending state, so the next character is written
+                        // into the cell under the restored cursor (no wrap can intervene)
+                        let pc = fk.cursor();
                         fk.feed_str("X");
-                        let c = fk.cursor();
-                        let row = &fk.view()[c.row.min(rows - 1)];
-                        let mut found = None;
-                        for cand in [c.col.wrapping_sub(1), c.col.min(cols - 1)] {
-                            if cand < cols && row.cells()[cand].char() == 'X' {
-                                found = Some(row.cells()[cand]);
-                                break;
+                        let cell = fk.view()[pc.row.min(rows - 1)].cells()[pc.col.min(cols - 1)];
+                        if cell.char() == 'X' {
+                            let got = conv_pen(cell.pen());
+                            if got != exp.pen {
+                                return Verdict::Violation { rule: "C17/pen".into(), detail: format!("{}: the next printed cell carries {:?}", ctx_s, got) };
                             }
-                        }
-                        match found {
-                            Some(cell) => {
-                                let got = conv_pen(cell.pen());
-                                if got != exp.pen {
-                                    return Verdict::Violation { rule: "C17/pen".into(), detail: format!("{}: the next printed cell carries {:?}", ctx_s, got) };
-                                }
-                            }
-                            None => st.bump("pen_probe_inconclusive"),
+                        } else {
+                            st.bump("pen_probe_inconclusive");
                         }
                     }
                     // origin mode: DECSTBM homes to the top margin iff origin mode is on
